@@ -203,6 +203,25 @@ class Rule:
             l=strip(e['l'])
             if l.get('k')=='MethodCall' and l.get('callee')==GL+'scalar_mut':
                 s.effects.append((guards,'mul', s.val(e['r'])[1]))
+        if k=='Call':
+            # a private helper of the crate that is handed the graph: its scalar effects are the caller's (parameters bound to the arguments' symbolic values)
+            c=hir.callee(e) or ''
+            facts=getattr(s,'facts',None)
+            takes_graph=any('GraphLike' in (strip(a).get('ty') or a.get('ty') or '') or (strip(a).get('k')=='Path' and strip(a)['res'].get('name') in ('g','graph')) for a in e['args'])
+            if facts is not None and c in facts['fns'] and takes_graph and not c.startswith(('graph::','vec_graph::','hash_graph::','<')) and getattr(s,'depth',0) < 2:
+                hf=facts['fns'][c]
+                ps=[p for p in hf['params']]
+                if len(ps)==len(e['args']) and all(p.get('k')=='Bind' for p in ps):
+                    for p,a in zip(ps,e['args']):
+                        s.env[p['id']]=s.val(a)
+                    for a in e['args']:
+                        s.walk(a,guards)
+                    s.depth=getattr(s,'depth',0)+1
+                    s.walk(hf['hir'],guards)
+                    s.depth-=1
+                    return
+            if takes_graph and c and not c.startswith(('graph::','<')) and 'GraphLike' not in c and facts is not None and c.split('::')[0] in ('basic_rules','simplify') and c not in facts['fns']:
+                s.effects.append((guards,'mul',('unk','call',c)))
         for key,v in e.items():
             if key in ('ty','sp'): continue
             s.walk(v,guards)
@@ -270,6 +289,7 @@ BR = {}
 def check_rule(facts, key, dom):
     """returns dict(effects=n, symbols=[..], checked=n, mismatches=[..], opaque=n)"""
     r = Rule(key)
+    r.facts = facts
     body = facts['fns'][key]['hir']
     r.walk(body, [])
     syms = set()
